@@ -24,8 +24,6 @@ inductive WState | none | headers | data | finished
 deriving DecidableEq, Repr, Inhabited
 inductive Conn | connected | closing | unconnected
 deriving DecidableEq, Repr, Inhabited
-inductive Phase | constructing | ready
-deriving DecidableEq, Repr, Inhabited
 
 structure Tcp where
   inbox   : Bytes := []
@@ -108,12 +106,11 @@ structure Sock where
   respHeaders : HeaderMap := []
   hdrRemaining : Int := 0
   ioOpen      : Bool := true
-  phase       : Phase := .ready
+  initPending : Bool := false        -- the queued initial onReadyRead() has not run yet
   closeCalled : Bool := false
   dcFlag      : Bool := false        -- the transport emitted `disconnected` inside the last primitive
   delPending  : Bool := false
   alive       : Bool := true
-  crashed     : Bool := false
   log         : List Obs := []
 deriving Repr, Inhabited
 
@@ -137,9 +134,6 @@ def statusReason (code : Int) : Bytes :=
   else lit ['U','N','K','N','O','W','N',' ','E','R','R','O','R']
 
 namespace Sock
-
-def logged (s : Sock) (o : Obs) : Sock :=
-  if s.phase = .constructing then s else { s with log := s.log ++ [o] }
 
 /-! ### transport -/
 
@@ -166,22 +160,22 @@ def tcpClose (s : Sock) : Sock :=
 def setStatusCode (s : Sock) (code : Int) (reason : Option Bytes) : Sock :=
   { s with code := code, reason := match reason with | some r => r | none => statusReason code }
 
-/-- `Socket::setHeader` as written (the test on `count` is what the code says) -/
+/-- `Socket::setHeader` -/
 def setHeader (s : Sock) (name value : Bytes) (replace : Bool) : Sock :=
-  if replace || HeaderMap.count name s.respHeaders != 0 then
-    { s with respHeaders := HeaderMap.replace name value s.respHeaders }
+  if replace || HeaderMap.count name s.respHeaders == 0 then
+    { s with respHeaders := HeaderMap.insert name value (HeaderMap.remove name s.respHeaders) }
   else
     { s with respHeaders :=
         HeaderMap.replace name (HeaderMap.value name s.respHeaders ++ [44, 32] ++ value) s.respHeaders }
 
-def headerLines (m : HeaderMap) : HeaderMap → Bytes
+/-- one line per map entry, in map order -/
+def headerLines : HeaderMap → Bytes
   | [] => []
-  | (k, _) :: rest =>
-    k ++ [COLON, SP] ++ joinWith [44, 32] (HeaderMap.values k m) ++ CRLF ++ headerLines m rest
+  | (k, v) :: rest => k ++ [COLON, SP] ++ v ++ CRLF ++ headerLines rest
 
 def headBytes (s : Sock) : Bytes :=
   lit ['H','T','T','P','/','1','.','0',' '] ++ intText s.code ++ [SP] ++ s.reason ++ CRLF
-    ++ headerLines s.respHeaders s.respHeaders ++ CRLF
+    ++ headerLines s.respHeaders ++ CRLF
 
 def writeHeaders (s : Sock) : Sock :=
   let h := headBytes s
@@ -209,7 +203,6 @@ def TEXT_HTML : Bytes := lit ['t','e','x','t','/','h','t','m','l']
 def APP_JSON : Bytes := lit ['a','p','p','l','i','c','a','t','i','o','n','/','j','s','o','n']
 
 def writeError (env : Env) (s : Sock) (code : Int) (reason : Option Bytes) : Sock :=
-  if s.phase = .constructing then { s with crashed := true, log := s.log ++ [Obs.crash] } else
   let s := setStatusCode s code reason
   let body := env.errPage s.code s.reason
   let s := setHeader s CONTENT_LENGTH (natDigits body.length) true
@@ -268,7 +261,7 @@ def takeSnap (s : Sock) : Snap :=
 
 /-- one API call, no reaction to `disconnected` run yet (`dcFlag` records that it is due) -/
 def apiPrim (env : Env) (s : Sock) (op : ApiOp) : Sock :=
-  if !s.alive || s.crashed then s else
+  if !s.alive then s else
   match op with
   | .read n   => let (s, out) := read s n; { s with log := s.log ++ [Obs.rd out] }
   | .readAll  => let (s, out) := readAll s; { s with log := s.log ++ [Obs.rd out] }
@@ -301,7 +294,7 @@ def apis (env : Env) (app : App) (s : Sock) (ops : List ApiOp) : Sock :=
 
 /-- emit one of the Socket's own signals and run the connected slot -/
 def emit (env : Env) (app : App) (s : Sock) (o : Obs) (ops : List ApiOp) : Sock :=
-  if s.phase = .constructing then s else apis env app { s with log := s.log ++ [o] } ops
+  apis env app { s with log := s.log ++ [o] } ops
 
 /-! ### private slots -/
 
@@ -330,12 +323,19 @@ def readHeaders (env : Env) (app : App) (s : Sock) : Sock × Bool :=
                           path := p, query := q.foldl (fun m e => qmInsert e.1 e.2 m) s.query,
                           readBuffer := rest, rs := .data }
         let s := if HeaderMap.contains CONTENT_LENGTH_KEY s.reqHeaders
-                 then { s with total := toLongLong (HeaderMap.value CONTENT_LENGTH_KEY s.reqHeaders) }
+                 then
+                   let t := toLongLong (HeaderMap.value CONTENT_LENGTH_KEY s.reqHeaders)
+                   -- anything beyond the declared length is not part of this request
+                   { s with total := t,
+                            readBuffer := if t ≥ 0 && (s.readBuffer.length : Int) > t
+                                          then s.readBuffer.take t.toNat else s.readBuffer }
                  else s
         (emit env app s .hp app.onHp, true)
 
 /-- `SocketPrivate::readData` -/
 def readDataSlot (env : Env) (app : App) (s : Sock) : Sock :=
+  let s := if s.total ≥ 0 && s.dataRead + s.readBuffer.length > s.total
+           then { s with readBuffer := s.readBuffer.take (s.total - s.dataRead).toNat } else s
   let s := if s.readBuffer.length != 0 then emit env app s .rr app.onRr else s
   if s.total != -1 && s.dataRead + s.readBuffer.length ≥ s.total then
     emit env app { s with rs := .finished } .rcf app.onRcf
@@ -343,11 +343,14 @@ def readDataSlot (env : Env) (app : App) (s : Sock) : Sock :=
 
 /-- `SocketPrivate::onReadyRead` -/
 def onReadyRead (env : Env) (app : App) (s : Sock) : Sock :=
+  -- request complete or socket closed: only the newly arrived data is discarded
+  if s.rs = .finished then
+    (if s.tcp.devOpen then { s with tcp := { s.tcp with inbox := [] } } else s) else
   let s := if s.tcp.devOpen
            then { s with readBuffer := s.readBuffer ++ s.tcp.inbox, tcp := { s.tcp with inbox := [] } }
            else s
   let (s, go) := if s.rs = .headers then readHeaders env app s else (s, true)
-  if !go || s.crashed then s else
+  if !go then s else
   match s.rs with
   | .data => readDataSlot env app s
   | .finished => { s with readBuffer := [] }
@@ -372,7 +375,7 @@ end Sock
 
 inductive Event
   | prebuf (bytes : Bytes)      -- bytes already in the transport before the Socket exists
-  | new                         -- construct the Socket (runs `onReadyRead()` in the constructor)
+  | new                         -- construct the Socket (queues the initial `onReadyRead()`)
   | feed (seg : Bytes)
   | ack (n : Nat)
   | ackAll
@@ -393,12 +396,10 @@ def ackN (env : Env) (app : App) (s : Sock) (n : Nat) : Sock :=
   else s
 
 def step (env : Env) (app : App) (s : Sock) (e : Event) : Sock :=
-  if !s.alive || s.crashed then s else
+  if !s.alive then s else
   match e with
   | .prebuf bs => { s with tcp := { s.tcp with inbox := s.tcp.inbox ++ bs } }
-  | .new =>
-    let s := onReadyRead env app { s with phase := .constructing }
-    { s with phase := .ready }
+  | .new => { s with initPending := true }
   | .feed seg =>
     onReadyRead env app { s with tcp := { s.tcp with inbox := s.tcp.inbox ++ seg } }
   | .ack n => ackN env app s n
@@ -407,13 +408,16 @@ def step (env : Env) (app : App) (s : Sock) (e : Event) : Sock :=
     if s.tcp.conn == .unconnected then s else
     let s := onReadChannelFinished env app s
     emitDc env app { s with tcp := { s.tcp with conn := .unconnected } }
-  | .turn => if s.delPending then { s with alive := false, delPending := false, log := s.log ++ [Obs.del] } else s
+  | .turn =>
+    -- posted events first (the queued initial read), then deferred deletion
+    let s := if s.initPending then onReadyRead env app { s with initPending := false } else s
+    if s.delPending then { s with alive := false, delPending := false, log := s.log ++ [Obs.del] } else s
   | .api op => api env app s op
 
 /-- the k-th external event, preceded by its marker in the history -/
 def stepK (env : Env) (app : App) (sk : Sock × Nat) (e : Event) : Sock × Nat :=
   let s := sk.1
-  let s := if !s.alive || s.crashed then s else { s with log := s.log ++ [Obs.ev sk.2] }
+  let s := if !s.alive then s else { s with log := s.log ++ [Obs.ev sk.2] }
   (step env app s e, sk.2 + 1)
 
 def run (env : Env) (app : App) (evs : List Event) (s : Sock := {}) : Sock :=
